@@ -215,7 +215,12 @@ class TagSelection(Selection):
               except IndexError:
                 yield tagging.NO_VALUE
             else:
-              yield getattr(value, name, tagging.NO_VALUE)
+              try:
+                yield getattr(value, name)
+              except (AttributeError, ValueError):
+                # Unset; ValueError: an unset dataclass field whose default is
+                # a default_factory (its default value cannot be read).
+                yield tagging.NO_VALUE
 
   def replace(self, value: Any, deepcopy: bool = True) -> None:
 
